@@ -1,11 +1,104 @@
 """C05: no input makes the parser panic (R-PANIC); radix and exponent clauses are added below."""
+import re
 from rules.panic_clause import panic_clause
+from rules import table as TB
 from props import common
+
+WIDE = {'i128': 128, 'u128': 128, 'i64': 64, 'u64': 64, 'usize': 64, 'isize': 64, 'i32': 32, 'u32': 32, 'i16': 16, 'u16': 16, 'i8': 8, 'u8': 8}
+
+
+PASS_THROUGH = re.compile(r'checked_(sub|add|neg|mul)$|Option::(and_then|map|zip|ok_or_else|ok_or|unwrap_or)$|Try::branch$|ToPrimitive::to_\w+$|convert::(From::from|Into::into|TryFrom::try_from)$|Result::(ok|map|and_then)$')
+
+
+def numeric_slice(t):
+    """subterms of the scale computation, not descending into calls that merely produce its inputs
+    (string searches, parsers, counters): those results are the sources of the slice"""
+    if not isinstance(t, tuple) or not t:
+        return
+    if isinstance(t[0], str):
+        yield t
+        if t[0] == 'call' and not PASS_THROUGH.search(TB._plain(t[1])):
+            return
+    for x in t:
+        if isinstance(x, tuple):
+            for y in numeric_slice(x):
+                yield y
+
+
+def radix_and_exponent(rep, F, rule='R-TABLE'):
+    """(2) every Ok(..) return of from_str_radix lies on the radix == 10 edge;
+       (3) the scale handed to the constructor is computed from the parsed exponent through checked
+           operations and widening casts only"""
+    fns = [f for f in F.real_fns() if not f.is_closure and f.trait == 'num_traits::Num' and f.self_ty == 'BigDecimal' and f.item == 'from_str_radix']
+    n = 0
+    for fn in fns:
+        rep.add_functions([fn.name])
+        try:
+            paths = TB.PathEnum(F, fn, max_paths=400).run()
+        except TB.Undecided as e:
+            rep.undecided(rule, fn.key + ':radix', 'paths not enumerable: %s' % e, fn.where())
+            continue
+        radix = TB.T('param', 2)
+        oks = [(a, o) for a, o in paths if TB.deref(o)[0] == 'adt' and TB.deref(o)[2] == 'Ok']
+        n += 1
+        bad = []
+        for atoms, out in oks:
+            on10 = any((t == TB.T('bin', 'Ne', radix, TB.T('const', 10)) and v == ('eq', 0)) or
+                       (t == TB.T('bin', 'Eq', radix, TB.T('const', 10)) and v[0] == 'notin') for t, v in atoms)
+            if not on10:
+                bad.append([(TB.show(t)[:40], v) for t, v in atoms][:3])
+        if not oks:
+            rep.undecided(rule, fn.key + ':radix', 'no Ok(..) return recognised', fn.where())
+        elif bad:
+            rep.violation(rule, fn.key + ':radix', '%d of %d Ok(..) returns are reachable without establishing radix == 10, e.g. under %s' % (len(bad), len(oks), bad[0]), fn.where())
+        else:
+            rep.ok(rule, fn.key + ':radix', 'all %d Ok(..) returns (of %d paths) lie on the radix == 10 edge; every other radix returns Err' % (len(oks), len(paths)), fn.where())
+        # (3) scale slice
+        n += 1
+        probs = []
+        seen_new = 0
+        for atoms, out in oks:
+            for c in TB.find_calls(out, r'BigDecimal::new$|BigDecimal::from_bigint$'):
+                if len(c[2]) < 2:
+                    continue
+                seen_new += 1
+                for sub in numeric_slice(c[2][1]):
+                    if sub[0] == 'bin' and sub[1] in ('Add', 'Sub', 'Mul', 'Shl', 'Shr', 'Div', 'Rem'):
+                        probs.append('unchecked %s in the scale computation' % sub[1])
+                    if sub[0] == 'ovf':
+                        probs.append('overflow-asserting arithmetic in the scale computation')
+                    if sub[0] == 'un' and sub[1] == 'Neg':
+                        probs.append('unchecked negation in the scale computation')
+                    if sub[0] == 'cast':
+                        to = sub[2]
+                        if WIDE.get(to, 0) < 128:
+                            probs.append('narrowing/sign-changing `as %s` cast in the scale computation' % to)
+                    if sub[0] == 'closure' and sub[1] in F.fns:
+                        cf = F.fns[sub[1]]
+                        for bid, st in cf.stmts():
+                            rv = st['rv']
+                            if rv['r'] == 'cast' and rv['kind'].startswith('IntToInt'):
+                                src = (rv['op'].get('ty') or rv['op'].get('pl', {}).get('ty', '')).lstrip('&')
+                                if WIDE.get(rv['to'], 0) < WIDE.get(src, 999) or (src[:1] != rv['to'][:1] and WIDE.get(rv['to'], 0) <= WIDE.get(src, 999)):
+                                    probs.append('narrowing/sign-changing `%s as %s` cast inside a closure of the scale computation' % (src, rv['to']))
+                            if rv['r'] == 'bin' and rv['bop'].replace('WithOverflow', '') in ('Add', 'Sub', 'Mul') and not rv['bop'].endswith('Unchecked'):
+                                probs.append('plain %s inside a closure of the scale computation' % rv['bop'])
+                    if sub[0] == 'call' and re.search(r'wrapping_|saturating_|unchecked_|overflowing_', sub[1]):
+                        probs.append('wrapping/saturating arithmetic %s in the scale computation' % sub[1].split('::')[-1])
+        if not seen_new:
+            rep.undecided(rule, fn.key + ':exponent-range', 'constructor call not recognised on the Ok paths', fn.where())
+        elif probs:
+            rep.violation(rule, fn.key + ':exponent-range', 'exponents outside the i64 range must be errors, but the scale is computed with: %s' % sorted(set(probs)), fn.where())
+        else:
+            rep.ok(rule, fn.key + ':exponent-range', 'scale = checked_sub(..).and_then(to_i64) style: only checked operations and widening casts between the parsed exponent and the constructor (%d constructor terms)' % seen_new, fn.where())
+    return n
+
 
 
 def run(ctx):
     rep = ctx.rep
     rep.explanation = ('Static MIR analysis. R-PANIC with entries Num::from_str_radix, FromStr::from_str, parse_bytes (debug-profile facts).  '
+                       'R-TABLE on from_str_radix: every Ok(..) return lies on the radix == 10 edge, and the scale handed to the constructor is computed through checked operations and widening casts only. '
                        'Does NOT decide the accepted grammar or the denoted value.')
     F = ctx.facts('default', 'dbg')
     ents = common.parse_entries(F)
@@ -13,5 +106,8 @@ def run(ctx):
     rep.floor('parser entry points', len(ents), 3)
     names, n = panic_clause(ctx, F, ents, what='parsing an arbitrary string')
     rep.floor('may-panic sites enumerated', n, 8)
+    Fr = ctx.facts('default', 'rel')
+    n2 = radix_and_exponent(rep, Fr)
+    rep.floor('radix/exponent clauses', n2, 2)
     rep.trust(common.TRUST_STD)
     rep.trust('BigInt::from_str_radix panics only for a radix outside 2..=36')
